@@ -2,6 +2,7 @@ package main
 
 import (
 	"fmt"
+	"go/ast"
 	"go/constant"
 	"go/token"
 	"go/types"
@@ -286,6 +287,34 @@ func windowPair(from, to ssa.Value, depth int) (bool, string) {
 		}
 		return true, "loop-carried window moved by 8192 on both bounds"
 	}
+	// both are parameters of an unexported helper: the pair is a window if it is one at every call of the helper
+	if pf, ok1 := from.(*ssa.Parameter); ok1 {
+		if pt, ok2 := to.(*ssa.Parameter); ok2 && pf.Parent() == pt.Parent() && curProg != nil && !ast.IsExported(pf.Parent().Name()) {
+			fn := pf.Parent()
+			idx := func(q *ssa.Parameter) int {
+				for i, x := range fn.Params {
+					if x == q {
+						return i
+					}
+				}
+				return -1
+			}
+			fi, ti := idx(pf), idx(pt)
+			callers := curProg.callersOf(fn)
+			if fi >= 0 && ti >= 0 && len(callers) > 0 {
+				for _, cs := range callers {
+					args := cs.Instr.Common().Args
+					if fi >= len(args) || ti >= len(args) {
+						return false, "call of " + fn.Name() + " not understood"
+					}
+					if ok, why := windowPair(args[fi], args[ti], depth+1); !ok {
+						return false, "call of " + fn.Name() + ": " + why
+					}
+				}
+				return true, "parameters of " + fn.Name() + ", a window at every call"
+			}
+		}
+	}
 	return false, fmt.Sprintf("(%s, %s) is not (aligned start, start+8191)", tf, tt)
 }
 
@@ -413,7 +442,7 @@ func c09Iterator(c *Ctx) {
 		}
 		for _, s := range sitesOf(fn) {
 			if strings.HasSuffix(s.CalleeName(), "Cache[K, V]).Add") && strings.Contains(typeShort(s.Args()[0].Type()), "EventFiltersCacheKey") {
-				okw := fn == f || fn.Name() == "SetMany" || p.calledOnlyFrom(fn, "loadNextWindow", 0)
+				okw := fn == f || fn.Name() == "SetMany" || p.calledOnlyFromAny(fn, map[string]bool{"loadNextWindow": true, "SetMany": true}, 0)
 				c.check(okw, "running-precedence", "cache writer "+qname(fn), p.Pos(s.Pos()), "only the iterator (after the bounds check) and SetMany fill the cache", "aggregated filters are added to the cache from an unexpected place")
 			}
 		}
